@@ -172,6 +172,14 @@ def op_mk(st, op, info):
     info.new_arrays_from_ctor = True
     if via == "ctor_none":
         r = call(st, op, lambda: FlodymArray(dims=ds), info)
+    elif via in ("ctor_int", "ctor_subclass"):
+        nd = int_values(op.get("vseed", 0), shape)
+        if via == "ctor_int":
+            nd = nd.astype(np.int64)
+            st.probe("integer_typed_array")
+        klass = FlodymArray if via == "ctor_int" else [Parameter, StockArray][op.get("vseed", 0) % 2]
+        info.raw.append(("ndarray", nd, nd.copy(), lambda s, o: values_equal(s, o)))
+        r = call(st, op, lambda: klass(dims=ds, values=nd, name="mk"), info)
     elif via == "ctor_nd":
         shp = shape
         if sf:
@@ -611,6 +619,76 @@ def op_stock(st, op, info):
         info.stock = r
 
 
-HANDLERS = {"mk": op_mk, "arith": op_arith, "reduce": op_reduce, "slice": op_slice, "setitem": op_setitem,
+def op_lifetime(st, op, info):
+    """build a lifetime model / set its parameters from pooled arrays (C13: arrays over other dimensions are refused; C15: inputs untouched)"""
+    from flodym.lifetime_models import WeibullLifetime, LogNormalLifetime
+    info.kind = "lifetime:" + op["via"]
+    tidx = [i for i, l in enumerate(st.LET) if l == "t"]
+    if not tidx:
+        return
+    others = [i for i in st._uniq(op.get("dims", [])) if st.LET[i] != "t"]
+    ds = DimensionSet(dim_list=[st.D[i] for i in [tidx[0]] + others])
+    letters = [d.letter for d in ds]
+    info.dims_passed = [ds]
+    info.raw.append(("dimset", ds, dims_sig(ds), lambda s_, o: dims_sig(o) == s_))
+    cls, names = {"fixed": (FixedLifetime, ["mean"]), "normal": (NormalLifetime, ["mean", "std"]),
+                  "weibull": (WeibullLifetime, ["weibull_shape", "weibull_scale"]), "lognormal": (LogNormalLifetime, ["mean", "std"])}[op["cls"]]
+    prms = {}
+    for n, name in enumerate(names):
+        how = op["prm"][n % len(op["prm"])]
+        if how["how"] == "num":
+            prms[name] = 2.0 + n
+        elif how["how"] == "ref":
+            a = st.slot(how["slot"])
+            if a is None:
+                prms[name] = 2.0
+                continue
+            prms[name] = a
+            info.inputs.append(a)
+            if any(l not in letters for l in a.dims.letters):
+                info.must_raise = "lifetime-prm-rejected"
+                st.fault("lifetime_prm_other_dims")
+        else:
+            pd_ = st.dimset(how["dims"])
+            arr = FlodymArray(dims=pd_, values=int_values(how.get("vseed", 0), tuple(len(d.items) for d in pd_), 1, 6))
+            prms[name] = arr
+            info.inputs.append(arr)
+            if any(l not in letters for l in pd_.letters):
+                info.must_raise = "lifetime-prm-rejected"
+                st.fault("lifetime_prm_other_dims")
+    if op["via"] == "ctor":
+        call(st, op, lambda: cls(dims=ds, **prms), info)
+    else:
+        def thunk():
+            m = cls(dims=ds)
+            m.set_prms(**prms)
+            return m
+        call(st, op, thunk, info)
+
+
+def op_stock_compute(st, op, info):
+    """compute() on a stock built earlier in this history - with parameters unset / negative / fine (C13: a compute that raises changes nothing)"""
+    if not st.stocks:
+        return
+    stock = st.stocks[op.get("k", 0) % len(st.stocks)]
+    info.kind = "stock_compute:" + type(stock).__name__
+    info.inplace = True
+    info.target = stock.stock
+    lt = getattr(stock, "lifetime_model", None)
+    how = op.get("prms", "keep")
+    if lt is not None and how != "keep":
+        names = list(lt.prms)
+        vals = {"mean": 3.0, "std": 1.0, "weibull_shape": 2.0, "weibull_scale": 3.0}
+        kw = {n: (vals[n] if how == "good" else -vals[n]) for n in names}
+        if how == "bad":
+            st.fault("negative_lifetime_parameter")
+        try:
+            lt.set_prms(**kw)
+        except Exception:  # noqa
+            pass
+    call(st, op, lambda: stock.compute(), info)
+
+
+HANDLERS = {"stock_compute": op_stock_compute, "lifetime": op_lifetime, "mk": op_mk, "arith": op_arith, "reduce": op_reduce, "slice": op_slice, "setitem": op_setitem,
             "set_values": op_set_values, "inplace_unary": op_inplace_unary, "df": op_df, "split": op_split_stack,
             "stack": op_split_stack, "stock": op_stock}
